@@ -1,5 +1,6 @@
 import Goirc.Facts
 import Goirc.Model.Split
+import Goirc.Model.Commands
 /-!
 # Tie A obligations: what was extracted from /repo now vs what the model assumes
 
@@ -23,5 +24,118 @@ theorem shape_indexFragment : Facts.shape_indexFragment = some "e9a1baa5483ae5b0
 
 /-- [C11] `splitMessage` is the function `Go.splitMessage` transcribes -/
 theorem shape_splitMessage : Facts.shape_splitMessage = some "87612613cc56ed28" := by decide
+
+/-- [C08,C09] the only statement that sends on `conn.out` is in `Raw` -/
+theorem only_Raw_sends : Facts.sendersOnOut = some ["Conn.Raw"] := by decide
+
+/-- [C08] the exported `*Conn` methods from which `Raw` is reachable are exactly the modelled command
+methods (`Go.Cmd`, with Privmsgln/Privmsgf) plus the Connect family (through the ping goroutine) -/
+theorem api_methods : Facts.exportedReachingRaw = some ["Action", "Authenticate", "Away", "Cap", "Connect",
+    "ConnectContext", "ConnectTo", "ConnectToContext", "Ctcp", "CtcpReply", "Invite", "Join", "Kick", "Mode", "Nick",
+    "Notice", "Oper", "Part", "Pass", "Ping", "Pong", "Privmsg", "Privmsgf", "Privmsgln", "Quit", "Raw", "Topic",
+    "User", "VHost", "Version", "Who", "Whois"] := by decide
+
+/-- [C08] verb constants equal the model's -/
+theorem verbs_eq_model :
+    [Facts.const_PASS, Facts.const_NICK, Facts.const_USER, Facts.const_JOIN, Facts.const_PART, Facts.const_KICK,
+     Facts.const_QUIT, Facts.const_WHOIS, Facts.const_WHO, Facts.const_PRIVMSG, Facts.const_NOTICE, Facts.const_VERSION,
+     Facts.const_ACTION, Facts.const_TOPIC, Facts.const_MODE, Facts.const_AWAY, Facts.const_INVITE, Facts.const_OPER,
+     Facts.const_VHOST, Facts.const_PING, Facts.const_PONG, Facts.const_CAP, Facts.const_AUTHENTICATE] =
+    [V.PASS, V.NICK, V.USER, V.JOIN, V.PART, V.KICK, V.QUIT, V.WHOIS, V.WHO, V.PRIVMSG, V.NOTICE, V.VERSION, V.ACTION,
+     V.TOPIC, V.MODE, V.AWAY, V.INVITE, V.OPER, V.VHOST, V.PING, V.PONG, V.CAP, V.AUTHENTICATE].map some := by decide
+
+/-- [C08] `cutNewLines` is the body the model transcribes -/
+theorem shape_cutNewLines : Facts.shape_cutNewLines = some "34b4d682fbbb1d75" := by decide
+
+/-- [C08] `splitArgs` is the body the model transcribes -/
+theorem shape_splitArgs : Facts.shape_splitArgs = some "a7348323a0861ddc" := by decide
+
+/-- [C08] `Conn.Raw` is the body the model transcribes -/
+theorem shape_Conn_Raw : Facts.shape_Conn_Raw = some "5132543dbb42025e" := by decide
+
+/-- [C08] `Conn.write` is the body the model transcribes -/
+theorem shape_Conn_write : Facts.shape_Conn_write = some "d8cc975a2ca4b814" := by decide
+
+/-- [C08] `Conn.Pass` is the body the model transcribes -/
+theorem shape_Conn_Pass : Facts.shape_Conn_Pass = some "88d768eadebbfed9" := by decide
+
+/-- [C08] `Conn.Nick` is the body the model transcribes -/
+theorem shape_Conn_Nick : Facts.shape_Conn_Nick = some "2267a5466bc15198" := by decide
+
+/-- [C08] `Conn.User` is the body the model transcribes -/
+theorem shape_Conn_User : Facts.shape_Conn_User = some "6eeea77643e738fc" := by decide
+
+/-- [C08] `Conn.Join` is the body the model transcribes -/
+theorem shape_Conn_Join : Facts.shape_Conn_Join = some "112531f6f2ceb8f7" := by decide
+
+/-- [C08] `Conn.Part` is the body the model transcribes -/
+theorem shape_Conn_Part : Facts.shape_Conn_Part = some "1c08f2f7b12d4911" := by decide
+
+/-- [C08] `Conn.Kick` is the body the model transcribes -/
+theorem shape_Conn_Kick : Facts.shape_Conn_Kick = some "4027e3f32f60888a" := by decide
+
+/-- [C08] `Conn.Quit` is the body the model transcribes -/
+theorem shape_Conn_Quit : Facts.shape_Conn_Quit = some "12d22bce9fffdcc1" := by decide
+
+/-- [C08] `Conn.Whois` is the body the model transcribes -/
+theorem shape_Conn_Whois : Facts.shape_Conn_Whois = some "56761433ee778d4e" := by decide
+
+/-- [C08] `Conn.Who` is the body the model transcribes -/
+theorem shape_Conn_Who : Facts.shape_Conn_Who = some "f8bcbaf4459036c3" := by decide
+
+/-- [C08] `Conn.Privmsg` is the body the model transcribes -/
+theorem shape_Conn_Privmsg : Facts.shape_Conn_Privmsg = some "c442d85d8877db0f" := by decide
+
+/-- [C08] `Conn.Privmsgln` is the body the model transcribes -/
+theorem shape_Conn_Privmsgln : Facts.shape_Conn_Privmsgln = some "961d863c5ba3c2ab" := by decide
+
+/-- [C08] `Conn.Privmsgf` is the body the model transcribes -/
+theorem shape_Conn_Privmsgf : Facts.shape_Conn_Privmsgf = some "4b0c782d335e5f60" := by decide
+
+/-- [C08] `Conn.Notice` is the body the model transcribes -/
+theorem shape_Conn_Notice : Facts.shape_Conn_Notice = some "5a19cffe9f69b595" := by decide
+
+/-- [C08] `Conn.Ctcp` is the body the model transcribes -/
+theorem shape_Conn_Ctcp : Facts.shape_Conn_Ctcp = some "d26f4d9cc8fd5cb1" := by decide
+
+/-- [C08] `Conn.CtcpReply` is the body the model transcribes -/
+theorem shape_Conn_CtcpReply : Facts.shape_Conn_CtcpReply = some "18da7b97dc5fc47f" := by decide
+
+/-- [C08] `Conn.Version` is the body the model transcribes -/
+theorem shape_Conn_Version : Facts.shape_Conn_Version = some "becd97dd0bf03db4" := by decide
+
+/-- [C08] `Conn.Action` is the body the model transcribes -/
+theorem shape_Conn_Action : Facts.shape_Conn_Action = some "bdbda06a0b2d363c" := by decide
+
+/-- [C08] `Conn.Topic` is the body the model transcribes -/
+theorem shape_Conn_Topic : Facts.shape_Conn_Topic = some "391dab47b913ced4" := by decide
+
+/-- [C08] `Conn.Mode` is the body the model transcribes -/
+theorem shape_Conn_Mode : Facts.shape_Conn_Mode = some "0f3e143e461cac25" := by decide
+
+/-- [C08] `Conn.Away` is the body the model transcribes -/
+theorem shape_Conn_Away : Facts.shape_Conn_Away = some "e59262486c74ce76" := by decide
+
+/-- [C08] `Conn.Invite` is the body the model transcribes -/
+theorem shape_Conn_Invite : Facts.shape_Conn_Invite = some "ac3948652dc2f94b" := by decide
+
+/-- [C08] `Conn.Oper` is the body the model transcribes -/
+theorem shape_Conn_Oper : Facts.shape_Conn_Oper = some "0449cb3d269c4175" := by decide
+
+/-- [C08] `Conn.VHost` is the body the model transcribes -/
+theorem shape_Conn_VHost : Facts.shape_Conn_VHost = some "3baef3b79e1f5a4a" := by decide
+
+/-- [C08] `Conn.Ping` is the body the model transcribes -/
+theorem shape_Conn_Ping : Facts.shape_Conn_Ping = some "0bf4006976f3750c" := by decide
+
+/-- [C08] `Conn.Pong` is the body the model transcribes -/
+theorem shape_Conn_Pong : Facts.shape_Conn_Pong = some "39c37f2b8f38ad1e" := by decide
+
+/-- [C08] `Conn.Cap` is the body the model transcribes -/
+theorem shape_Conn_Cap : Facts.shape_Conn_Cap = some "4c87ca83ecf6f197" := by decide
+
+/-- [C08] `Conn.Authenticate` is the body the model transcribes -/
+theorem shape_Conn_Authenticate : Facts.shape_Conn_Authenticate = some "160ecf6596666363" := by decide
+
 
 end FactsCheck
